@@ -235,9 +235,9 @@ class Equation:
 
         Note: returns the output ranks first
         """
-        term_iter = chain(
-            self.equation.find_data("times"),
-            self.equation.find_data("take"))
+        # Visit the terms in the order they are written
+        term_iter = self.equation.find_pred(
+            lambda tree: tree.data in ("times", "take"))
 
         # Get the ranks in a term of inputs
         term_ranks = Equation.__get_term_ranks(next(term_iter))
@@ -292,12 +292,13 @@ class Equation:
         Return a list of ranks in the tensor
         """
         str_ranks = []
-        for ijust in ranks.find_data("ijust"):
-            rank = ParseUtils.next_str(ijust).upper()
-            str_ranks.append(rank)
-
-        for itimes in ranks.find_data("itimes"):
-            rank = str(itimes.children[1]).upper()
+        # Visit the index variables in the order they are written
+        for iterm in ranks.find_pred(
+                lambda tree: tree.data in ("ijust", "itimes")):
+            if iterm.data == "ijust":
+                rank = ParseUtils.next_str(iterm).upper()
+            else:
+                rank = str(iterm.children[1]).upper()
             str_ranks.append(rank)
 
         return str_ranks
